@@ -12,6 +12,7 @@ import (
 	_ "fmt"
 	"io"
 	"net"
+	"strconv"
 	"strings"
 	"sync"
 	"testing"
@@ -46,6 +47,9 @@ type Case struct {
 	Faults   []sim.Fault `json:"faults,omitempty"`
 	Inj      []Injection `json:"inj,omitempty"`
 	Seed     uint64      `json:"seed"`
+	// InitSize: the client's Config.InitialPacketSize (0 = default 1280; 1200 is the smallest size RFC 9000 14.1
+	// allows for a datagram carrying an Initial packet and the smallest the Config accepts)
+	InitSize int `json:"init_size,omitempty"`
 }
 
 var curT *testing.T
@@ -93,6 +97,7 @@ func genCase(t *rapid.T) Case {
 		}
 		c.Inj = append(c.Inj, in)
 	}
+	c.InitSize = rapid.SampledFrom([]int{0, 0, 0, 1200, 1200, 1201, 1252, 1350}).Draw(t, "initsize")
 	return c
 }
 
@@ -263,11 +268,11 @@ func (c *sessionCache) Put(k string, s *tls.ClientSessionState) {
 }
 
 type result struct {
-	dialErr, acceptErr error
-	dialAt, acceptAt   time.Duration
-	cconn, sconn       *quic.Conn
-	zeroRTTWriteErr    error
-	serverGot          [][]byte
+	dialErr, acceptErr  error
+	dialAt, acceptAt    time.Duration
+	cconn, sconn        *quic.Conn
+	zeroRTTWriteErr     error
+	serverGot           [][]byte
 	clientSaw0RTTReject bool
 }
 
@@ -327,6 +332,10 @@ func runCase(c Case, u *vf.Unit) *vf.Verdict {
 		ctls.ClientSessionCache = cache
 	}
 	cconf := qconf()
+	cconf.InitialPacketSize = uint16(c.InitSize)
+	if c.InitSize != 0 {
+		u.Class("client-initial-packet-size:" + strconv.Itoa(c.InitSize))
+	}
 	if c.Scenario == "vn" {
 		cconf.Versions = []quic.Version{quic.Version2, quic.Version1}
 		if vnFinal == quic.Version2 {
